@@ -71,6 +71,11 @@ func Zoo() []ZooEntry {
 	add("[]bool", Slice(SliceOf(TBool), Bool(true)))
 	add("[]byte", Slice(SliceOf(TUint8), UintOf(TUint8, 'a'), UintOf(TUint8, 'b'), UintOf(TUint8, 'c')))
 	add("NBytes", &Node{T: NamedType("NBytes"), Items: []*Node{UintOf(TUint8, 'a'), UintOf(TUint8, 'b'), UintOf(TUint8, 'c')}})
+	// slices whose element type is a NAMED uint8 (not convertible to []byte), int8, uint16 "bytes"
+	add("[]NUint8", Slice(SliceOf(NamedType("NUint8")), UintOf(NamedType("NUint8"), 'a'), UintOf(NamedType("NUint8"), 'b'), UintOf(NamedType("NUint8"), 'c')))
+	add("[]int8-as-text", Slice(SliceOf(TInt8), IntOf(TInt8, 'a'), IntOf(TInt8, 'b')))
+	add("[]uint16-as-text", Slice(SliceOf(TUint16), UintOf(TUint16, 'a'), UintOf(TUint16, 'b')))
+	add("[3]NUint8", &Node{T: ArrayOf(3, NamedType("NUint8")), Items: []*Node{UintOf(NamedType("NUint8"), 'a'), UintOf(NamedType("NUint8"), 'b'), UintOf(NamedType("NUint8"), 'c')}})
 	add("NStrSlice", &Node{T: NamedType("NStrSlice"), Items: []*Node{Str("abc")}})
 	add("NIntSlice", &Node{T: NamedType("NIntSlice"), Items: []*Node{Int(5)}})
 	add("[]NString", Slice(SliceOf(NamedScalarTypes[9]), StrOf(NamedScalarTypes[9], "abc")))
